@@ -288,7 +288,7 @@ FILE_INIT = b"0123456789\nsecond\n"
 FILE_MODES = ["r", "w", "a", "r+", "w+", "a+"]
 FILE_OPS = [("ws", b"ab\n"), ("ws", b"x"), ("ws", b""), ("wb", b"\x00\xff\n"), ("ss", 0), ("ss", 3), ("ss", 100), ("se", 0), ("se", -2), ("sc", -1), ("sc", 2),
             ("rd", 0), ("rd", 2), ("rd", 100), ("rb", 3), ("rl",), ("pos",), ("fl",)]
-FILE_OPS_QUICK = [("ws", b"ab\n"), ("wb", b"\x00\xff\n"), ("ss", 0), ("ss", 3), ("se", 0), ("sc", -1), ("rd", 2), ("rd", 100), ("rl",), ("pos",), ("fl",)]
+FILE_OPS_QUICK = [("ws", b"ab\n"), ("ws", b"x"), ("wb", b"\x00\xff\n"), ("ss", 0), ("ss", 3), ("se", 0), ("sc", -1), ("rd", 2), ("rd", 100), ("rl",), ("pos",), ("fl",)]
 
 
 def file_op_text(o):
@@ -566,6 +566,9 @@ SQL_SET = [op_setvar("VNEG0", "d-0x0p+0"), op_setvar("VTINY", "d0x0.000000000000
            op_setvar("VNUL", "s" + b"a\x00b".hex()), op_setvar("VHIGH", "s" + b"\xff\xc3\xa9".hex())]
 
 
+NULL_OF = {"i": "int()", "d": "num()", "s": "str()", "x": "raw()", "b": "bool()", "N": "int()"}
+
+
 def sql_gen(tier):
     def gen():
         n = 0
@@ -586,13 +589,17 @@ def sql_gen(tier):
                     'ok3 = d.exec("create table t2(a,b,c)"); p2 = d.prepare("%s"); b2 = d.bind(tup(%s)); '
                     # statements between bind and execute: the bound tuple was a temporary, its memory is reused by now
                     'zz = "x" + "another-temporary-string-that-reuses-the-memory-0000" + str(123456789); w = tab(10, "zzzzzzzzzzzzzzzzzzzzzzzzzzzzzzzzzzzzzzzzzzzz"); '
-                    'e2 = d.execute(); z2 = d.finalize(); '
-                    'q2 = d.query("select %s from t2"); p1 = d.prepare("select %s from t"); e1 = d.execute(); rv = tup(); f1 = d.fetch(rv); '
+                    'e2 = d.execute(); '
+                    # the same prepared statement bound and executed again: nulls where the first bind had values, then the values again
+                    'b3 = d.bind(tup(%s)); e3 = d.execute(); b4 = d.bind(tup(%s)); e4 = d.execute(); z2 = d.finalize(); '
+                    'q3 = d.query("select %s from t2 order by rowid"); '
+                    'q2 = d.query("select %s from t2 order by rowid limit 1"); p1 = d.prepare("select %s from t"); e1 = d.execute(); rv = tup(); f1 = d.fetch(rv); '
                     'rv2 = tup(); f2 = d.fetch(rv2); z1 = d.finalize(); cl = d.close();' % (
                         sql, ", ".join(v[0] for v in t), ",".join(cols + ["typeof(%s)" % c for c in cols]),
-                        sql.replace("into t(", "into t2("), ", ".join(v[0] for v in t), ",".join(cols + ["typeof(%s)" % c for c in cols]),
+                        sql.replace("into t(", "into t2("), ", ".join(v[0] for v in t), ", ".join(NULL_OF[v[1][0]] for v in t), ", ".join(v[0] for v in t),
+                        ",".join(["typeof(%s)" % c for c in cols]), ",".join(cols + ["typeof(%s)" % c for c in cols]),
                         ",".join(cols + ["typeof(%s)" % c for c in cols])))
-            ops = ["isolate", op_ctx(0, True), "rmfile %s" % hx(path), op_setvar("PATH", "s" + path.encode().hex())] + SQL_SET + [op_run(prog), op_dump(0, "OK1,OK2,Q,NROWS,Q2,RV,F1,F2,P1,P2,B2,E1,E2")]
+            ops = ["isolate", op_ctx(0, True), "rmfile %s" % hx(path), op_setvar("PATH", "s" + path.encode().hex())] + SQL_SET + [op_run(prog), op_dump(0, "OK1,OK2,Q,NROWS,Q2,RV,F1,F2,P1,P2,B2,E1,E2,B3,E3,B4,E4,Q3")]
             yield Case("s%d" % n, ops, {"kind": "sql", "vals": [[v[1][0], v[1][1].hex() if isinstance(v[1][1], bytes) else (v[1][1].hex() if isinstance(v[1][1], float) else v[1][1])] for v in t],
                                         "exprs": [v[0] for v in t], "path": path})
             n += 1
@@ -701,6 +708,21 @@ def check_sql(case, res, vs):
             if repr(rowf[i]) != repr(row[i]):
                 vs.append(Violation("sqlite3:fetch-value:%s" % want[i % n][0], "%s: item %d fetched as %r, query() gives %r" % (where, i % n + 1, rowf[i], row[i]), case))
                 break
+    # re-binding: row 2 of t2 is all NULL, row 3 holds the values again
+    for name in ("B3", "E3", "B4", "E4"):
+        if dump.get(name) != "boolean=b1":
+            vs.append(Violation("sqlite3:prepared-status:%s" % name.lower(), "%s: %s is %s" % (where, name, dump.get(name)), case))
+    try:
+        q3 = parse_symbol(dump["Q3"])[2][2]
+        types = [[it[1].decode() if it[0] == "s" else "?" for it in r[2]] for r in q3]
+    except Exception as e:
+        types = None
+        vs.append(Violation("sqlite3:prepared-dump", "%s: cannot read %r (%s)" % (where, dump.get("Q3"), e), case))
+    if types is not None:
+        want_types = [w[0] for w in want]
+        if len(types) != 3 or types[0] != want_types or types[2] != want_types or types[1] != ["null"] * n:
+            vs.append(Violation("sqlite3:rebind", "%s: the statement bound three times (values, nulls, values) stored rows of types %s, expected %s / nulls / %s" % (
+                where, types, want_types, want_types), case))
     # independent reader (Python sqlite3) - executed by the driver process? no: by this checker, from the rows captured by the 'sqlread' step
     if rows is None:
         vs.append(Violation("sqlite3:independent-reader", "%s: the database file could not be read: %s" % (where, st[-1]), case))
